@@ -47,19 +47,45 @@ class BodyError(Exception):
     """The exception raised by the body of a `with` block."""
 
 
+# the same, as subclasses of the three BaseException-only classes (they get past `except Exception:`)
+class BoomKI(KeyboardInterrupt):
+    pass
+
+
+class BoomSE(SystemExit):
+    pass
+
+
+class BoomGE(GeneratorExit):
+    pass
+
+
+class BodyKI(KeyboardInterrupt):
+    pass
+
+
+BOOMS = (Boom, BoomKI, BoomSE, BoomGE)
+BODY_ERRORS = (BodyError, BodyKI)
+
+
 class Faults:
     """Call counter shared by every fault-injectable callable of one session."""
 
-    def __init__(self, exact=(), from_=None):
+    def __init__(self, exact=(), from_=None, exc=Boom):
         self.calls = 0
         self.exact = set(exact)
         self.from_ = from_
+        self.exc = exc          # the class raised: Boom (an Exception) or BoomKI / BoomSE / BoomGE (BaseException only)
+
+    @property
+    def base(self):
+        return not issubclass(self.exc, Exception)
 
     def hit(self):
         i = self.calls
         self.calls += 1
         if i in self.exact or (self.from_ is not None and i >= self.from_):
-            raise Boom(i)
+            raise self.exc(i)
 
     def enc(self):
         parts = [str(i) for i in sorted(self.exact)]
@@ -217,7 +243,7 @@ class Cfg:
         self.dumb = dumb                      # TERM=dumb
         self.disable = disable and kind == "progress"
 
-    def enc(self, bare_bypass, start_guard, reset_shape, blank_fix, flush_fix, spins=""):
+    def enc(self, bare_bypass, start_guard, reset_shape, blank_fix, flush_fix, spins="", fault_base=False, guard_base=0, disable_fix=0):
         return ",".join(
             str(x)
             for x in [
@@ -236,6 +262,9 @@ class Cfg:
                 int(self.terminal),
                 int(self.dumb),
                 int(self.disable),
+                int(fault_base),
+                int(guard_base),
+                int(disable_fix),
                 enc_str(spins),
             ]
         )
@@ -463,7 +492,7 @@ class Session:
         try:
             self.apply(op)
             err = "ok"
-        except Boom:
+        except BOOMS:
             err = "err:Fault"
         except KeyError:
             err = "err:KeyError"
@@ -477,7 +506,7 @@ class Session:
             self._orig_spinner = None
 
 
-def run_with(cfg, ops, faults, raise_at):
+def run_with(cfg, ops, faults, raise_at, body_exc=BodyError):
     """`with display: body` on the real objects.  -> (characters written, raised?, ctl, restored?, exception type, spinner frames)"""
     s = Session(cfg, faults)
     try:
@@ -486,11 +515,11 @@ def run_with(cfg, ops, faults, raise_at):
             with s.obj:
                 for i, op in enumerate(ops):
                     if raise_at is not None and i == raise_at:
-                        raise BodyError(i)
+                        raise body_exc(i)
                     s.apply(op)
                 if raise_at is not None and raise_at >= len(ops) and raise_at == len(ops):
-                    raise BodyError(raise_at)
-        except (Boom, BodyError, KeyError) as e:
+                    raise body_exc(raise_at)
+        except BOOMS + BODY_ERRORS + (KeyError,) as e:
             exc = e
         return s.take(), exc is not None, s.ctl(), s.restored(), type(exc).__name__ if exc else None, "".join(s.spins)
     finally:
